@@ -892,6 +892,14 @@ def index_case(ctx, rng):
         fs = gen_fspec(rng, flags)
         fs.name = "f%d" % i
         fspecs.append(fs)
+    wide = rng.random() < 0.04
+    if wide:
+        # many documents with > 256 distinct values in a reference column read through a real index
+        from whoosh import columns as _columns
+        fs = FSpec("ID", lambda: fields.ID(sortable=_columns.RefBytesColumn()), lambda r: "u%04d" % r.randrange(2000), False, "RefBytes")
+        fs.name = "f%d" % len(fspecs)
+        fspecs.append(fs)
+        ctx.count("idx.wide")
     schema = fields.Schema(id=fields.ID(stored=True, unique=True))
     for fs in fspecs:
         fs.field = fs.make()
@@ -904,7 +912,7 @@ def index_case(ctx, rng):
                 fs.col_default = fs.field.from_column_value(ct.default_value())
     storage_kind = rng.choice(["ram", "file", "mmap"])
     compound = rng.random() < 0.6
-    frontend = rng.choice(["writer", "writer", "writer", "buffered"])
+    frontend = rng.choice(["writer", "writer", "writer", "buffered"]) if not wide else "writer"
     ncommits = rng.choice([1, 2, 3, 3, 4, 6, 8])
     schema_sig = tuple((fs.kind, fs.stored, fs.col) for fs in fspecs)
     w = {"layer": "index", "schema": ["%s=%s(stored=%s,column=%s)" % (fs.name, fs.kind, fs.stored, fs.col) for fs in fspecs],
@@ -958,7 +966,7 @@ def index_case(ctx, rng):
             else:
                 wr = ix.writer(compound=compound)
                 live = sorted(model.docs)
-                for _ in range(rng.randint(1, 5)):
+                for _ in range(rng.randint(1, 5) if not (wide and c == 0) else rng.randint(270, 300)):
                     op = rng.choice(["add", "add", "add", "delete", "update"])
                     if op == "add" or not live:
                         key = newkey()
